@@ -29,7 +29,7 @@ VARIABLES it, hist, last, used, start
 vars == <<it, hist, last, used, start>>
 \* `used` (the budget spent) is part of the view, so the bound is exhaustive under any
 \* worker schedule; `hist` is not: any path to a state is a valid witness of it.
-StateView == <<it, last.ok, used>>
+StateView == <<it, last, used>>          \* (all of `last`: invariants read its location too)
 
 StartLines == UNION {{s.lines[i] : i \in 1..Len(s.lines)} : s \in StartStates}
 LexTable == [t \in Lines \cup StartLines \cup {B("RUN"), B("CONT")} |->
